@@ -32,7 +32,8 @@ extern "C" {
 typedef struct obj_info_t {
     int   tag;
     int   ref;
-    char *path; /*  build a path for each object using the vgroup separation symbol "/"
+    int   out_ref; /* vgroups: reference number of the copy in the output file, -1 if none (yet) */
+    char *path;    /*  build a path for each object using the vgroup separation symbol "/"
                  *  along the vgroup hierarchy traversal, e.g., the vgroup hierarchy
                  *
                  *    vg0 -----> vg1 -----> vg2 -----> sds1
